@@ -1377,6 +1377,58 @@ func bnIdiom(c *Ctx, a *flAgg, an *bnAn, f *ssa.Function, sl *ssa.Slice, ord map
 	if ld, ok := X.(*ssa.UnOp); ok && ld.Op == token.MUL {
 		_ = ld
 	}
+	// a position found by searching one text cuts that text (or the text it
+	// is a part of), not another one
+	for _, op := range []ssa.Value{sl.Low, sl.High} {
+		if op == nil {
+			continue
+		}
+		v := op
+		for i := 0; i < 3; i++ {
+			if bo, ok := v.(*ssa.BinOp); ok && (bo.Op == token.ADD || bo.Op == token.SUB) {
+				if _, isC := bnConst(bo.Y); isC {
+					v = bo.X
+					continue
+				}
+			}
+			break
+		}
+		call, ok := v.(*ssa.Call)
+		if !ok || call.Call.StaticCallee() == nil || len(call.Call.Args) < 1 {
+			continue
+		}
+		cal := call.Call.StaticCallee()
+		if p := calleePkg(cal); p != "strings" && p != "bytes" {
+			continue
+		}
+		switch cal.Name() {
+		case "Index", "IndexByte", "IndexRune", "IndexAny", "LastIndex", "LastIndexByte", "LastIndexAny":
+		default:
+			continue
+		}
+		S := call.Call.Args[0]
+		related := func(x, y ssa.Value) bool {
+			// y is x, or a slice (of a slice) of x
+			for i := 0; i < 4; i++ {
+				if an.sameVal(x, y) {
+					return true
+				}
+				if s2, ok := y.(*ssa.Slice); ok {
+					y = s2.X
+					continue
+				}
+				break
+			}
+			return false
+		}
+		ord["search"]++
+		key := fmt.Sprintf("%s/search-index#%d", funcKey(f), ord["search"])
+		if related(X, S) || related(S, X) {
+			a.ok("BN-idiom", key, "the position was searched in the text it cuts (or in a part of it)", sl.Pos())
+		} else {
+			a.bad("BN-idiom", key, "the slice bound "+shortVal(op)+" is a position searched in another text than the one it cuts: the wrong bytes are cut, or the bound is out of range", sl.Pos())
+		}
+	}
 	for _, op := range []ssa.Value{sl.Low, sl.High} {
 		if op == nil {
 			continue
